@@ -1,5 +1,6 @@
 import SockModel.Drive.Common
 import SockModel.Model.ToDos
+import SockModel.Spec.C06
 /-! Driver for C06 (and the `Step` half of C07): validates ToDo/Step transcripts
 against `Model/ToDos.lean` and evaluates the property on the observations. -/
 namespace SockModel.Drive.C06
@@ -49,63 +50,13 @@ def normObs (o : List String) : String :=
 /-! The property on observations only (`Spec.C06`): a reference scheduler state that knows nothing
 about the deque - a bag of (id, due, sequence number) - is maintained from the op lines and from
 the bodies of the tasks the implementation reports as run. -/
-structure Pending where
-  id : Nat
-  when : Int
-  seq : Nat
-
-structure Spec where
-  pend : List Pending := []
-  seq : Nat := 0
-  now : Int := 0
-  live : List Nat := []
-  known : List Nat := []
-  bodies : List (Nat × List BodyOp) := []
-
-def Spec.sched (sp : Spec) (id : Nat) (w : Int) : Spec :=
-  { sp with pend := sp.pend.filter (·.id ≠ id) ++ [⟨id, w, sp.seq⟩], seq := sp.seq + 1 }
-
-def Spec.apply (sp : Spec) : BodyOp → Spec
-  | .shift id w => if sp.live.contains id then sp.sched id w else sp
-  | .shiftd id ms => if sp.live.contains id then sp.sched id (sp.now + ms * nsPerMs) else sp
-  | .cancel id => if sp.live.contains id then { sp with pend := sp.pend.filter (·.id ≠ id) } else sp
-  | .newAt id w => if sp.known.contains id then sp else
-      { (sp.sched id w) with live := id :: sp.live, known := id :: sp.known }
-  | .newIn id ms => if sp.known.contains id then sp else
-      { (sp.sched id (sp.now + ms * nsPerMs)) with live := id :: sp.live, known := id :: sp.known }
-  | .drop id => { sp with live := sp.live.filter (· ≠ id) }
-  | .adv ns => { sp with now := sp.now + ns }
-  | .stop => sp
-
-/-- the implementation reports `ran id at now`: check never-early, scheduled-at-all (exactly once),
-due order incl. ties; then perform the task's body on the reference state -/
-def Spec.ran (sp : Spec) (id : Nat) (now : Int) : Except String Spec :=
-  match sp.pend.find? (·.id = id) with
-  | none => .error s!"task {id} invoked although it is not scheduled (twice / after Cancel)"
-  | some p =>
-    if now < p.when then .error s!"task {id} invoked at {now}, before its due time {p.when}"
-    else
-      match sp.pend.find? (fun q => q.when < p.when ∨ (q.when = p.when ∧ q.seq < p.seq)) with
-      | some q => .error s!"task {id} (due {p.when}) invoked before task {q.id} (due {q.when}, scheduled earlier)"
-      | none =>
-        let sp := { sp with pend := sp.pend.filter (·.id ≠ id), now := now }
-        let body := match sp.bodies.find? (·.1 = id) with | some (_, b) => b | none => []
-        .ok (body.foldl Spec.apply sp)
-
-def Spec.user (sp : Spec) : Op → Spec
-  | .new id w body => if sp.known.contains id then sp else
-      ({ sp with bodies := (id, body) :: sp.bodies }).apply (.newAt id w)
-  | .newIn id ms body => if sp.known.contains id then sp else
-      ({ sp with bodies := (id, body) :: sp.bodies }).apply (.newIn id ms)
-  | .newIdle id body => if sp.known.contains id then sp else
-      { sp with bodies := (id, body) :: sp.bodies, live := id :: sp.live, known := id :: sp.known }
-  | .call op => sp.apply op
-  | .clock ns => if ns ≥ sp.now then { sp with now := ns } else sp
-  | .step _ => sp
+/- the reference scheduler itself lives in `Spec/C06.lean` (namespace `RefSched`), together with the
+theorem that it accepts every run of the model (`model_accepted`) -/
+open SockModel.ToDos.RefSched
 
 structure DSt where
   m : St := {}
-  sp : Spec := {}
+  sp : SpSt := {}
   tags : List String := []
 
 /-- split the observation lines that follow an op -/
@@ -117,7 +68,7 @@ def takeObs : List String → List (List String) → List (List String) × List 
     | none => (acc.reverse, l :: rest)
 
 /-- spec check of one step's observations (`stepStart` = clock at the call) -/
-def specStep (sp : Spec) (t : Int) (obs : List (List String)) : Except String (Spec × List String) := do
+def specStep (sp : SpSt) (t : Int) (obs : List (List String)) : Except String (SpSt × List String) := do
   -- the clock is observed (begin / ran / poll / end carry the virtual time), never simulated here
   let start ← match obs with
     | ["begin", n] :: _ => match n.toInt? with | some n => pure n | none => throw "bad begin"
@@ -193,7 +144,7 @@ partial def go (clamp : Bool) (d : DSt) : List String → Verdict
         | some ["end", n] => n.toInt? == some m'.now
         | _ => true
       -- direct property check on the observations
-      let specRes : Except String (Spec × List String) :=
+      let specRes : Except String (SpSt × List String) :=
         match op with
         | .step t => specStep d.sp t obs
         | _ =>
